@@ -139,7 +139,8 @@ T* Cabinet<T>::free(const Token &token)
 template <typename T>
 void Cabinet<T>::clear()
 {
-    last_id_ = 0;
+    //! NOTE: last_id_ is deliberately kept, so that tokens issued before clear()
+    //!       can never be equal to tokens issued after it
     cells_.clear();
     first_free_ = std::numeric_limits<Pos>::max();
     count_ = 0;
